@@ -1137,3 +1137,28 @@ def rule_counted_rows_adjacent(ctx, crate, rule="R-COUNTED-ROWS-ADJACENT"):
                       "the %s-alignment padding rows are written before the frame's lines but added to the committed row count: with text in the frame "
                       "(println) or output written after clear() (suspend), the next draw erases that text instead of the padding" % v, cfg)
     ctx.floor(rule, n, 1, cfg, "alignment arms that paint padding rows")
+
+
+def rule_every_line_painted(ctx, crate, rule="R-EVERY-LINE-PAINTED"):
+    """"each completed redraw shows exactly the most recent rendering": inside the paint loop every line that is not cut off by
+    the terminal-height test is written — the loop cannot start its next iteration without having passed the line's
+    write (a `continue` for "empty" lines also skips the newline bookkeeping and the last-line filler that parks the cursor)."""
+    cfg = crate.config
+    info = emitter_commit_info(ctx, crate, rule)
+    if not info:
+        return
+    pb, p, commits, acc = info
+    paints = line_paint_calls(pb)
+    ctx.floor(rule, len(paints), 1, cfg, "per-line paint calls")
+    for k, c in enumerate(paints):
+        loop = {c.bb} | {x for x in pb.reach_after(c.bb) if c.bb in pb.reach_after(x)}
+        heads = [x for x in pb.calls(r"std::iter::Iterator::next") if x.bb in loop]
+        if not heads:
+            continue
+        h = heads[0]
+        start = pb.term(h.bb).get("t")
+        # from the start of an iteration, can the header be reached again without passing the paint call?
+        again = h.bb in pb.reach([start], avoid=[c.bb]) if start is not None else False
+        ctx.check(not again, rule, "no-skipped-line#%d" % k, pb.name, c.loc(),
+                  "every iteration of the paint loop that continues to the next line has written its line",
+                  "the paint loop can go on to the next line without writing the current one (and without its newline / last-line filler)", cfg)
